@@ -131,6 +131,9 @@ func c23Run(c *fw.Ctx, only string) {
 		h   harness
 		cfg config
 	}
+	if only != "" {
+		cfgs = cfgs[:2] // reused by another property's check: two configurations suffice there
+	}
 	var jobs []job
 	for _, h := range hs {
 		if only != "" && h.writer != only {
@@ -142,6 +145,9 @@ func c23Run(c *fw.Ctx, only string) {
 	}
 	c.Bound("harnesses_x_configs", len(jobs))
 	deadline := time.Now().Add(time.Duration(c.Pick(80, 1100)) * time.Second)
+	if only != "" {
+		deadline = time.Now().Add(time.Duration(c.Pick(45, 300)) * time.Second)
+	}
 	var totalExec, totalPoints atomic.Int64
 	c.ParDo(len(jobs), 0, func(ji int) {
 		j := jobs[ji]
